@@ -38,7 +38,7 @@ func TestVerifC21Det(t *testing.T) {
 		"a watch event is modelled as a boolean 'refresh pending' per broker: the watcher re-reads the current snapshot, not the event's value")
 	cli, _ := c21Etcd(t)
 	c21ForcedOwnRefresh(t, r, cli)
-	n := r.N(100, 1200)
+	n := r.N(100, 1000)
 	sem := make(chan struct{}, 8)
 	var wg sync.WaitGroup
 	for ci := 0; ci < n; ci++ {
@@ -196,7 +196,7 @@ func TestVerifC21Stress(t *testing.T) {
 		"obligation = the largest acknowledged count: sound for any linearizable implementation, since a later smaller grow would be rejected",
 		"sentinel not visible within the watchdog => inconclusive")
 	cli, endpoints := c21Etcd(t)
-	n := r.N(8, 60)
+	n := r.N(8, 50)
 	for ci := 0; ci < n; ci++ {
 		VerifC21StressCase(VerifC21StressEnv{R: r, Cli: cli, Endpoints: endpoints, Prefix: "stress"}, ci, r.Rand(ci))
 	}
